@@ -76,6 +76,20 @@ func c10Ops() []c10Op {
 			}
 		}
 	}
+	// several point operations in ONE script, nothing (no monitor read) in
+	// between: read, rename away, create again / read, drop, create as the
+	// other kind / write twice
+	for _, k := range c10Keys {
+		for _, k2 := range c10Keys {
+			if k2 == k {
+				continue
+			}
+			ops = append(ops, c10Op{Text: fmt.Sprintf("zz = %s\nrename(%s, %s)\nadd_key(%s, 7)", k, k2, k, k)})
+			ops = append(ops, c10Op{Text: fmt.Sprintf("if %s == 1 {\n}\nrename(%s, %s)\nset_tag(%s, \"again\")", k, k2, k, k)})
+		}
+		ops = append(ops, c10Op{Text: fmt.Sprintf("zz = get_key(%s)\ndrop_key(%s)\nset_tag(%s, \"t\")\nzz = %s\nadd_key(%s, 1.5)", k, k, k, k, k)})
+		ops = append(ops, c10Op{Text: fmt.Sprintf("zz = %s\ncast(%s, \"str\")\nzz = %s\nset_tag(%s)\nzz = %s\nadd_key(%s, nil)", k, k, k, k, k, k)})
+	}
 	ops = append(ops, c10Op{Text: `grok(message, "%{WORD:n1} %{INT:n2:int}")`})
 	ops = append(ops, c10Op{Text: `grok(f, "%{NUMBER:n1:float}")`})
 	ops = append(ops, c10Op{Text: `grok(message, "%{WORD:t:str} %{INT:f:bool}")`})
